@@ -56,7 +56,9 @@ class ProbabilisticAgent(AbstractScriptedAgent, discriminator="probabilistic-age
     @property
     def probabilities(self) -> Dict[str, int]:
         """Convenience method to view the probabilities of the Agent."""
-        return np.asarray(list(self.config.agent_settings.action_probabilities.values()))
+        action_probabilities = self.config.agent_settings.action_probabilities
+        # index i of the vector must be the probability of action i, whatever order the mapping was written in
+        return np.asarray([action_probabilities[i] for i in range(len(action_probabilities))])
 
     def get_action(self, obs: ObsType, timestep: int = 0) -> Tuple[str, Dict]:
         """
